@@ -1,7 +1,7 @@
 //! C18 E-lazy: the publish-once cache of LazyValue's decoded string under every two-reader
 //! interleaving (environment model of the atomic cell: harness/common/atomic_shim.rs).
 use super::*;
-use crate::verif_atomic::{ATOMIC_STEPS, INTERFERE};
+use crate::verif_atomic::{ATOMIC_STEPS, INTERFERE_KIND};
 use std::mem::ManuallyDrop;
 
 /// ledger of every decoding ever created (by the reader under test or by the other reader):
@@ -24,7 +24,7 @@ fn arc_new_ledger<T>(data: T) -> Arc<T> {
 }
 
 /// the other reader: decodes on its own and publishes iff the cell is still empty
-unsafe fn other_reader_publishes(cell: *mut *mut u8) {
+pub(crate) unsafe fn other_reader_publishes(cell: *mut *mut u8) {
     if (*cell).is_null() {
         let s = String::from("x");
         let p = Arc::into_raw(arc_new_ledger(s)) as *mut u8;
@@ -62,7 +62,7 @@ fn check_ledger() {
 /// and its clone are dropped, every decoding ever created ends with no outstanding reference.
 fn lazy_body(ledger: bool) {
     unsafe {
-        INTERFERE = Some(if ledger { other_reader_publishes } else { other_reader_publishes_plain });
+        INTERFERE_KIND = if ledger { 1 } else { 2 };
         CREATED = 0;
         OTHER_PUBLISHED = 0;
     }
@@ -87,7 +87,7 @@ fn lazy_body(ledger: bool) {
         assert_eq!(rc.unwrap().as_ptr(), p1);
     }
     // no more interference while dropping (drops need exclusive access)
-    unsafe { INTERFERE = None };
+    unsafe { INTERFERE_KIND = 0 };
     let drop_clone_first: bool = kani::any();
     if drop_clone_first {
         drop(c0);
@@ -126,7 +126,7 @@ fn e_lazy_parse_from_frees() {
     lazy_body(false);
 }
 
-unsafe fn other_reader_publishes_plain(cell: *mut *mut u8) {
+pub(crate) unsafe fn other_reader_publishes_plain(cell: *mut *mut u8) {
     if (*cell).is_null() {
         let s = String::from("x");
         *cell = Arc::into_raw(Arc::new(s)) as *mut u8;
